@@ -5,7 +5,8 @@ run() {
   d=$1; id=$(basename $d); prop=${id%%-*}
   t=$(mktemp -d /tmp/reseed-XXXX); cp $d/patch.diff $d/README.md $t/ 2>/dev/null; cp $d/demo_test.go.txt $t/demo_test.go
   if ! git -C /repo apply --check $t/patch.diff 2>/dev/null; then echo "$id STALE (patch no longer applies to /repo HEAD)"; rm -rf $t; return; fi
-  out=$(tools/seedtest.py $t $prop 2>/dev/null)
+  props=$(python3 -c "import json,sys; m=json.load(open('$d/meta.json')); print(' '.join(list(m.get('checks',{}).keys()) or ['$prop']))" 2>/dev/null || echo $prop)
+  out=$(tools/seedtest.py $t $props 2>/dev/null)
   echo "$id $(echo "$out" | python3 -c "import json,sys; s=sys.stdin.read(); r=json.loads(s[s.index('{'):]); print('confirmed', r.get('existing_tests_pass_with_change'), r.get('demo_fails_with_change'), r.get('demo_passes_without_change'), 'detected_by', r['detected_by'], [ ('nfi' if any('no-failing' in l for l in v['lines']) else 'concrete') for v in r['checks'].values() if v['lines']])" 2>&1 | tail -1)"
   rm -rf $t
 }
